@@ -4,6 +4,7 @@ import FractopoModel.Basic.Geom
 import FractopoModel.Basic.Wire
 import FractopoModel.Props.C01
 import FractopoModel.Props.C05
+import FractopoModel.Props.C07
 import FractopoModel.Props.C08
 import FractopoModel.Props.C15
 import FractopoModel.Props.C20
